@@ -37,6 +37,7 @@ type Contract struct {
 	Requires []Clause
 	Ensures  []Clause
 	EachRet  []Clause // like Ensures, one obligation per return statement
+	Insts    []Clause // instantiate <expr>: entry-state terms at which quantified assumptions are instantiated
 	GhostEns []Clause // assumed at call sites, not checked against the body (ghost instrumentation)
 	Entry    []Clause // assumed at entry when verifying the body (ghost initialisation)
 	Modifies []string // raw item texts
@@ -97,7 +98,7 @@ type Specs struct {
 	trustedList  []string
 }
 
-var clauseKeywords = []string{"assert", "requires", "ensures", "ghost-ensures", "assume-entry", "modifies", "loop", "trusted", "pure-effects", "inline-ok"}
+var clauseKeywords = []string{"assert", "requires", "ensures", "ghost-ensures", "assume-entry", "modifies", "loop", "trusted", "pure-effects", "inline-ok", "instantiate"}
 
 func loadSpecs(repo string) (*Specs, error) {
 	sp := &Specs{constGlobals: map[string]bool{}, contracts: map[string]*Contract{}, defines: map[string]*Define{}, pures: map[string]*PureFunc{}, ghosts: map[string]*GhostVar{},
@@ -268,6 +269,13 @@ func (sp *Specs) parseFile(repo, fn string) error {
 				}
 			}
 			cur, lastClause = nil, nil
+		case "instantiate":
+			if cur == nil {
+				return errf("instantiate outside a contract")
+			}
+			cur.Insts = append(cur.Insts, Clause{Text: rest})
+			lastClause = &cur.Insts[len(cur.Insts)-1]
+			lastKind = "clause"
 		case "requires", "ensures", "ensures-each-return", "ghost-ensures", "assume-entry":
 			if cur == nil {
 				return errf("%s outside a contract", word)
@@ -621,7 +629,7 @@ func (sp *Specs) resolveExprs() error {
 			}
 			return nil
 		}
-		for _, cls := range [][]Clause{c.Requires, c.Ensures, c.EachRet, c.GhostEns, c.Entry} {
+		for _, cls := range [][]Clause{c.Requires, c.Ensures, c.EachRet, c.GhostEns, c.Entry, c.Insts} {
 			if err := fix(cls); err != nil {
 				return err
 			}
